@@ -4,7 +4,7 @@
    TransferManager by the correspondence check (checks/c05.py).
    Definitions only; must stay executable (vm_compute). *)
 From Coq Require Import ZArith List Bool Arith.
-From SlskGen Require Import PrioGen.
+From SlskGen Require Import PrioGen SlotGen.
 Import ListNotations.
 
 (* ---- users ---------------------------------------------------------------------------- *)
@@ -79,6 +79,12 @@ Definition free (c : cfg) (ts : list transfer) : nat := slots c - length (filter
 Definition select (c : cfg) (ts : list transfer) : list transfer :=
   firstn (free c ts + SLICE_EXTRA) (prioritize c (eligible c ts)).
 
+(* manage_transfers, upload loop (repair F03): inside the slice, an upload whose `_transfer_task` is still
+   running is skipped -- it keeps its place in the slice, i.e. it still uses up its slot *)
+Definition is_starting (t : transfer) : bool := match tst t with Starting => true | _ => false end.
+Definition started (c : cfg) (ts : list transfer) : list transfer :=
+  if CYCLE_GUARD_TR then filter (fun t => negb (is_starting t)) (select c ts) else select c ts.
+
 (* a user is eligible: not offline, no upload in progress, has a queued upload *)
 Definition eligible_user (c : cfg) (ts : list transfer) (u : nat) : Prop :=
   offline c u = false /\ ~ In u (busy_users ts) /\ exists t, In t ts /\ tuser t = u /\ is_queued t = true.
@@ -128,7 +134,7 @@ Definition step (s : mstate) (e : event) : mstate * list nat :=
   match e with
   | Queue u => (mkS c (ts ++ [mkT (length ts) u Queued false]), [])
   | Requeue k => (mkS c (upd k (fun t => match tst t with Other => set_st Queued t | _ => t end) ts), [])
-  | Cycle => let sel := map tid (select c ts) in (mkS c (mark sel ts), sel)
+  | Cycle => let sel := map tid (started c ts) in (mkS c (mark sel ts), sel)
   | First k => (mkS c (upd k (fun t => match tst t with Starting => set_st Init t | _ => t end) ts), [])
   | FirstAll => (mkS c (map (fun t => match tst t with Starting => set_st Init t | _ => t end) ts), [])
   | Finish k r => (mkS c (upd k (fin_target r) ts), [])
